@@ -165,8 +165,12 @@ class World:
         if collecting:
             # an answer to this sender is being collected; the datagram under test arrives at the very instant the
             # collection period ends, before the loop has run the period's timer
+            # (the queue for this sender holds an Offer - the answer to its FindService - and a SubscribeAck)
             self.prot.datagram_received(
-                refcodec.sd_message(3, [("subscribe", sid, 1, 1, 3, 5, (refcodec.v4("192.0.2.9", 30501),), ())]), SENDER, False)
+                refcodec.sd_message(3, [("find", sid, 0xFFFF, 0xFF, 3, 0xFFFFFFFF, (), ())]), SENDER, False)
+            self.loop.iterate()
+            self.prot.datagram_received(
+                refcodec.sd_message(4, [("subscribe", sid, 1, 1, 3, 5, (refcodec.v4("192.0.2.9", 30501),), ())]), SENDER, False)
             self.loop.advance(2 ** -7)
 
     def deliver(self, data, multicast):
